@@ -140,7 +140,15 @@ impl Storage {
         Ok(&self.snaps.front().unwrap().snap)
     }
     pub fn new_builder(&mut self) -> Builder {
-        self.free.pop().unwrap_or_default().recycle()
+        let recycled = self.free.pop().unwrap_or_default();
+        match self.snaps.front() {
+            // Deltas are computed on raw type numbers, so the numbering of
+            // extended item types must stay the same from one snapshot to
+            // the next. Always continue from the newest snapshot, not from
+            // whichever old one happens to be recycled.
+            Some(newest) => recycled.recycle_like(&newest.snap),
+            None => recycled.recycle(),
+        }
     }
     pub fn set_delta_tick<W>(&mut self, warn: &mut W, tick: i32) -> Result<(), UnknownSnap>
     where
